@@ -50,7 +50,7 @@ def instances(tier):
         out.append(_mk(4, n, m, "O3", desc="calc_distance argument order, lengths %d/%d" % (n, m)))
     # word-boundary instances: constant backdrop, symbolic windows of 2 symbols at both ends of text and pattern
     bd = {"VK_BACKDROP": None, "VK_W1": 2, "VK_W2": 2, "VK_BD_A": 0, "VK_BD_B": 2, "VK_BD_MOD": 13}
-    edge = [(6, 65, 64), (6, 64, 63), (2, 64, 63)] if tier == "quick" else [(6, 65, 64), (6, 64, 63), (6, 66, 65), (6, 64, 64), (2, 64, 63), (2, 63, 62), (3, 130, 129), (3, 129, 128), (3, 66, 65), (3, 200, 192)]
+    edge = [(6, 65, 64), (6, 64, 63), (2, 64, 63), (3, 34, 33)] if tier == "quick" else [(3, 34, 33), (3, 40, 32), (6, 65, 64), (6, 64, 63), (6, 66, 65), (6, 64, 64), (2, 64, 63), (2, 63, 62), (3, 130, 129), (3, 129, 128), (3, 66, 65), (3, 200, 192)]
     for mode, n, m in edge:
         i = _mk(mode, n, m, "O4", extra=bd, name="edge_m%d_n%d_m%d" % (mode, n, m), timeout=900 if tier == "quick" else 3600, mem_gb=10)
         i.nb = 16
